@@ -3,11 +3,12 @@
 Require Extraction.
 Require Import ExtrOcamlBasic.
 From Coq Require Import Strings.Byte.
-From Sftp Require Import Base.GoSem Mode.FileMode Wire.Prim Wire.Packets.
+From Sftp Require Import Base.GoSem Mode.FileMode Wire.Prim Wire.Packets Wire.ClientParse.
 Extraction Language OCaml.
 Extraction "model.ml"
   Byte.of_bits Byte.to_bits
   toFileMode fromFileMode toChmodPerm isRegular mode_string parse_mode_string wire_normal valid_wire_type
   os_mode fileStat_flags setstat_ops run_until_fail
   encA encB decA decB_request decB_response recv_frame recv_frame_B attrs_dec attrs_alloc_cells decB_name_alloc_cells guardB
-  rawify wf_packet ptype.
+  rawify wf_packet ptype
+  client_safe parse_status_only parse_handle parse_attrs parse_name1 parse_readdir parse_statvfs parse_data read_chunk path_base.
